@@ -71,6 +71,10 @@ pub enum StubScn {
         /// once (its first attempt is pending in the backend) and dropped
         #[serde(default)]
         abandon_first: bool,
+        /// 0: no tracing subscriber, 1: a formatting subscriber at TRACE level (every `tracing`
+        /// callsite in the stub is enabled and its fields are evaluated)
+        #[serde(default)]
+        subscriber: u8,
     },
 }
 
@@ -154,6 +158,7 @@ pub fn gen(rng: &mut Rng) -> StubScn {
                 deadline_ms: *rng.pick(&[0u64, 5, 5, 20, 10_000]),
                 attempt_ms: *rng.pick(&[0u64, 0, 3, 8, 30]),
                 abandon_first: rng.chance(250),
+                subscriber: if rng.chance(300) { 1 } else { 0 },
             }
         }
     }
@@ -305,6 +310,10 @@ pub fn run(scn: &StubScn, tape: Tape) -> RunOutput {
         StubScn::RoundRobin { preempt_permille, .. } => *preempt_permille,
         _ => 0,
     };
+    let _sub = crate::subscribers::install(match scn {
+        StubScn::Retry { subscriber, .. } => *subscriber,
+        _ => 0,
+    });
     run_sim(
         tape,
         Knobs { preempt_permille: preempt_p, nested_steps: 4, ..Knobs::default() },
@@ -383,7 +392,7 @@ pub fn run(scn: &StubScn, tape: Tape) -> RunOutput {
                         }
                     }));
                 }
-                StubScn::Retry { results, max_attempts, retry_ok_below, latency_yields, deadline_ms, attempt_ms, abandon_first } => {
+                StubScn::Retry { results, max_attempts, retry_ok_below, latency_yields, deadline_ms, attempt_ms, abandon_first, .. } => {
                     let latency_yields = if abandon_first { latency_yields.max(1) } else { latency_yields };
                     let be = RetryBackendRef(Rc::new(RetryBackend { sim: sim.clone(), results, attempt: RefCell::new(0), ptrs: RefCell::new(Vec::new()), yields: latency_yields, sleep_ms: attempt_ms }));
                     let sim_p = sim.clone();
